@@ -89,6 +89,15 @@ def range_extension(ob):
     return z3.And(*out) if used else None
 
 
+def load_factor():
+    """solver budgets are wall-clock limits: when more processes than cores are runnable they are stretched (at most 4x), so that a
+    verdict does not flip to `undecided` merely because the machine is busy"""
+    try:
+        return min(4.0, max(1.0, os.getloadavg()[0] / float(os.cpu_count() or 1)))
+    except OSError:
+        return 1.0
+
+
 def check(ob, facts, timeout_ms=10000, use_cvc5=True, extra=(), prefer=None):
     """first try with let-definitions hidden (opaque): dropping hypotheses is sound and keeps the query small.
     prefer: case-split conditions of a recorded conjunct-wise proof -- that proof is replayed first"""
@@ -196,7 +205,7 @@ def ground_conditions(exprs, limit=8):
 
 def _prove(hyps, facts, extra, goal, timeout_ms):
     s = z3.Solver()
-    s.set("timeout", max(300, int(timeout_ms)))
+    s.set("timeout", max(300, int(timeout_ms * load_factor())))
     if facts is not None:
         for f in facts.items:
             s.add(f)
@@ -214,7 +223,7 @@ def split_tactic(ob, facts, timeout_ms, extra=(), prefer=()):
     """second attempt at an undecided obligation: the goal is split into its conjuncts, each proved on its own; a conjunct that stays
     undecided is proved by a case split on a ground if-then-else condition C of the hypotheses (H, C |- G and H, not C |- G).
     Returns a description of the proof or None."""
-    deadline = time.time() + timeout_ms / 1000.0
+    deadline = time.time() + load_factor() * timeout_ms / 1000.0
     parts = goal_parts(ob.goal)
     cands = None
     splits = []
@@ -277,7 +286,7 @@ def _check(ob, facts, timeout_ms=10000, use_cvc5=True, extra=(), refute=True, sk
     r = z3.unknown
     for share, seed in ((0.4, 0), (0.15, 7), (0.15, 23), (0.3, 101)):
         s = z3.Solver()
-        s.set("timeout", max(500, int(timeout_ms * share)))
+        s.set("timeout", max(500, int(timeout_ms * share * load_factor())))
         s.set("random_seed", seed)
         if seed:
             s.set("smt.random_seed", seed)
@@ -348,7 +357,7 @@ def discharge(report, timeout_ms=10000, use_cvc5=True, cores=None, record=None):
         n = seen.get(ob.oid, 0)
         seen[ob.oid] = n + 1
         key = f"{ob.oid}#{n}"
-        hint = (cores or {}).get(key) if misses < 4 else None     # a core file that stopped matching is abandoned quickly
+        hint = (cores or {}).get(key) if misses < 6 else None     # a core file that stopped matching is abandoned quickly
         done = False
         prefer = None
         if isinstance(hint, dict):
@@ -357,7 +366,7 @@ def discharge(report, timeout_ms=10000, use_cvc5=True, cores=None, record=None):
             full = ob.hyps
             ob.hyps = [full[i] for i in hint]
             try:
-                st = _check(ob, report.facts, min(timeout_ms, 4000), False, (), refute=False)
+                st = _check(ob, report.facts, min(timeout_ms, 8000), False, (), refute=False)
             finally:
                 ob.hyps = full
             if st == "unsat":
